@@ -203,6 +203,42 @@ auto lemma numEnd_bounds(s string, k int)
   trigger numEnd(s, k)
   { if 0 <= k && k < len(s) && numchar(s[k]) { numEnd_bounds(s, k+1) } }
 
+// a byte of a package name: anything that does not start a qualifier or a clause and does not end the alternative
+pure func namechar(c int) bool { c != 58 && !isws(c) && c != 40 && c != 91 && c != 60 && !isend(c) }
+pure func nameEnd(s string, k int) int
+  decreases len(s) - k
+  { 0 <= k && k < len(s) && namechar(s[k]) ? nameEnd(s, k+1) : k }
+auto lemma nameEnd_bounds(s string, k int)
+  ensures k <= nameEnd(s, k) && (0 <= k && k <= len(s) ==> nameEnd(s, k) <= len(s))
+  decreases len(s) - k
+  trigger nameEnd(s, k)
+  { if 0 <= k && k < len(s) && namechar(s[k]) { nameEnd_bounds(s, k+1) } }
+
+// a byte of an architecture qualifier (after "name:"): anything up to a blank, a clause or the end of the alternative
+pure func qualchar(c int) bool { !isws(c) && c != 40 && c != 91 && c != 60 && !isend(c) }
+pure func qualEnd(s string, k int) int
+  decreases len(s) - k
+  { 0 <= k && k < len(s) && qualchar(s[k]) ? qualEnd(s, k+1) : k }
+auto lemma qualEnd_bounds(s string, k int)
+  ensures k <= qualEnd(s, k) && (0 <= k && k <= len(s) ==> qualEnd(s, k) <= len(s))
+  decreases len(s) - k
+  trigger qualEnd(s, k)
+  { if 0 <= k && k < len(s) && qualchar(s[k]) { qualEnd_bounds(s, k+1) } }
+
+// a byte of an architecture name inside [...]: anything up to a blank or the closing bracket ('!', '[' and the end of
+// the input are errors there)
+pure func listchar(c int) bool { !isws(c) && c != 93 && c != 0 && c != 33 && c != 91 }
+pure func listEnd(s string, k int) int
+  decreases len(s) - k
+  { 0 <= k && k < len(s) && listchar(s[k]) ? listEnd(s, k+1) : k }
+auto lemma listEnd_bounds(s string, k int)
+  ensures k <= listEnd(s, k) && (0 <= k && k <= len(s) ==> listEnd(s, k) <= len(s))
+  decreases len(s) - k
+  trigger listEnd(s, k)
+  { if 0 <= k && k < len(s) && listchar(s[k]) { listEnd_bounds(s, k+1) } }
+// where the name of a list entry starts: after an optional '!'
+pure func entryStart(s string, k int) int { peekAt(s, k) == 33 ? k + 1 : k }
+
 // appending the next byte of d extends the copied span by one
 // (stated about the new string n itself, so that a hint can name it)
 lemma cat_extend(o string, d string, s0 int, i int, n string)
@@ -279,12 +315,28 @@ func parsePossibilityArch
   ensures input.Index >= old(input.Index) && input.Index <= len(input.Data) + 1
   ensures result == nil ==> input.Index <= len(input.Data) && input.Index > old(input.Index)
   ensures possi.Architectures == old(possi.Architectures)
+  // (C04) one entry: an optional '!' and the architecture named by exactly the bytes up to the next blank or ']',
+  // appended to the list; the negation flag is the first entry's, a later entry that differs is an error
+  ensures result == nil ==> input.Index == listEnd(input.Data, entryStart(input.Data, old(input.Index)))
+  ensures result == nil ==> len(possi.Architectures.Architectures) == old(len(possi.Architectures.Architectures)) + 1 &&
+    possi.Architectures.Architectures[len(possi.Architectures.Architectures) - 1].ABI == archABI(input.Data[entryStart(input.Data, old(input.Index)) : input.Index]) &&
+    possi.Architectures.Architectures[len(possi.Architectures.Architectures) - 1].OS == archOS(input.Data[entryStart(input.Data, old(input.Index)) : input.Index]) &&
+    possi.Architectures.Architectures[len(possi.Architectures.Architectures) - 1].CPU == archCPU(input.Data[entryStart(input.Data, old(input.Index)) : input.Index])
+  ensures result == nil ==> possi.Architectures.Not == (peekAt(input.Data, old(input.Index)) == 33)
+  ensures result == nil && old(len(possi.Architectures.Architectures)) > 0 ==> possi.Architectures.Not == old(possi.Architectures.Not)
+  ensures result == nil ==> (forall k int :: 0 <= k && k < old(len(possi.Architectures.Architectures)) ==> possi.Architectures.Architectures[k] == old(possi.Architectures.Architectures[k]))
   modifies input.Index, possi.Architectures.Not, possi.Architectures.Architectures
   loop 1:
     invariant input.Index >= old(input.Index) && input.Index <= len(input.Data)
     invariant possi.Architectures == old(possi.Architectures) && possi.Architectures != nil
     invariant hasNot || input.Index > old(input.Index) || (peekAt(input.Data, input.Index) != 93 && !isws(peekAt(input.Data, input.Index)))
     invariant hasNot ==> input.Index > old(input.Index)
+    invariant hasNot == (peekAt(input.Data, old(input.Index)) == 33) && input.Index >= entryStart(input.Data, old(input.Index))
+    invariant possi.Architectures.Not == hasNot && possi.Architectures.Architectures == old(possi.Architectures.Architectures)
+    invariant old(len(possi.Architectures.Architectures)) > 0 ==> hasNot == old(possi.Architectures.Not)
+    invariant listEnd(input.Data, input.Index) == listEnd(input.Data, entryStart(input.Data, old(input.Index)))
+    invariant arch == input.Data[entryStart(input.Data, old(input.Index)) : input.Index]
+      by { cat_extend("", input.Data, entryStart(input.Data, old(input.Index)), input.Index - 1, arch) }
     decreases len(input.Data) - input.Index
 
 func parsePossibilityArchs
@@ -345,9 +397,21 @@ func parseMultiarch
   requires input != nil && possi != nil && 0 <= input.Index && input.Index <= len(input.Data)
   requires peekAt(input.Data, input.Index) == 58
   ensures input.Index > old(input.Index) && input.Index <= len(input.Data)
+  // it stops in front of a blank, a clause or the end of the alternative - never in front of a name byte or a colon
+  ensures result == nil ==> !namechar(peekAt(input.Data, input.Index)) && peekAt(input.Data, input.Index) != 58
+  // (C04) the qualifier is the architecture named by exactly the bytes between the colon and that stop
+  ensures input.Index == qualEnd(input.Data, old(input.Index) + 1)
+  ensures result == nil ==> possi.Arch != nil && fresh(possi.Arch) &&
+    possi.Arch.ABI == archABI(input.Data[old(input.Index)+1 : input.Index]) &&
+    possi.Arch.OS == archOS(input.Data[old(input.Index)+1 : input.Index]) &&
+    possi.Arch.CPU == archCPU(input.Data[old(input.Index)+1 : input.Index])
+  ensures (result != nil) == archEmptyPart(input.Data[old(input.Index)+1 : qualEnd(input.Data, old(input.Index) + 1)])
   modifies input.Index, possi.Arch
   loop 1:
     invariant input.Index > old(input.Index) && input.Index <= len(input.Data)
+    invariant qualEnd(input.Data, input.Index) == qualEnd(input.Data, old(input.Index) + 1)
+    invariant name == input.Data[old(input.Index)+1 : input.Index]
+      by { cat_extend("", input.Data, old(input.Index) + 1, input.Index - 1, name) }
     decreases len(input.Data) - input.Index
 
 func parseSubstvar
@@ -364,10 +428,25 @@ func parsePossibility
   requires input != nil && relation != nil && 0 <= input.Index && input.Index <= len(input.Data)
   ensures input.Index >= old(input.Index) && input.Index <= len(input.Data) + 2
   ensures result == nil ==> input.Index <= len(input.Data) && isend(peekAt(input.Data, input.Index))
+  // (C04) the name of a (non-substvar) alternative is exactly the run of name bytes after the leading blanks; an
+  // alternative without a name (e.g. after a trailing comma) leaves no trace
+  ensures result == nil && peekAt(input.Data, wsEnd(input.Data, old(input.Index))) != 36 && nameEnd(input.Data, wsEnd(input.Data, old(input.Index))) > wsEnd(input.Data, old(input.Index)) ==>
+    len(relation.Possibilities) == old(len(relation.Possibilities)) + 1 &&
+    !relation.Possibilities[len(relation.Possibilities) - 1].Substvar &&
+    relation.Possibilities[len(relation.Possibilities) - 1].Name == input.Data[wsEnd(input.Data, old(input.Index)) : nameEnd(input.Data, wsEnd(input.Data, old(input.Index)))]
+  ensures result == nil && peekAt(input.Data, wsEnd(input.Data, old(input.Index))) != 36 && nameEnd(input.Data, wsEnd(input.Data, old(input.Index))) == wsEnd(input.Data, old(input.Index)) ==>
+    len(relation.Possibilities) == old(len(relation.Possibilities))
   modifies input.Index, relation.Possibilities
   loop 1:
-    invariant input.Index >= old(input.Index) && input.Index <= len(input.Data)
-    invariant ret.Architectures != nil
+    invariant input.Index >= wsEnd(input.Data, old(input.Index)) && input.Index <= len(input.Data) && old(input.Index) <= len(input.Data)
+    invariant ret.Architectures != nil && ret != nil && !ret.Substvar && relation.Possibilities == old(relation.Possibilities)
+    invariant input.Index <= nameEnd(input.Data, wsEnd(input.Data, old(input.Index))) ==>
+      nameEnd(input.Data, input.Index) == nameEnd(input.Data, wsEnd(input.Data, old(input.Index))) &&
+      ret.Name == input.Data[wsEnd(input.Data, old(input.Index)) : input.Index]
+      by { cat_extend("", input.Data, wsEnd(input.Data, old(input.Index)), input.Index - 1, ret.Name) }
+    invariant input.Index > nameEnd(input.Data, wsEnd(input.Data, old(input.Index))) ==>
+      ret.Name == input.Data[wsEnd(input.Data, old(input.Index)) : nameEnd(input.Data, wsEnd(input.Data, old(input.Index)))] &&
+      !namechar(peekAt(input.Data, input.Index)) && peekAt(input.Data, input.Index) != 58
     decreases len(input.Data) - input.Index
 
 func parseRelation
